@@ -74,6 +74,7 @@ def amax(
         a, graded=options["sort_graded"], reverse=options["sort_reverse"]
     )
     indices = numpy.amax(proxy, axis=axis, **kwargs)
-    out = a[numpy.isin(proxy, indices)]
-    out = out[numpy.argsort(indices.ravel())]
-    return numpoly.reshape(out, indices.shape)
+    # proxy is a permutation, so its argsort maps each rank to its position
+    positions = numpy.argsort(proxy.ravel())[numpy.asarray(indices).ravel()]
+    out = a.ravel()[positions]
+    return numpoly.reshape(out, numpy.shape(indices))
